@@ -27,6 +27,11 @@
 #include "svtdec_inc.h"
 
 #define MAXF 8192
+#ifdef SVT_AV1_VERIF
+extern uint64_t svt_verif_sched_event_count(void);
+extern void     svt_verif_srm_trace_flush(void);
+extern void     svt_verif_seg_trace_flush(void);
+#endif
 
 typedef struct {
     char     name[64];
@@ -421,6 +426,9 @@ static int run_session(Case *cs, int pass /*0 single, 1 first, 2 second*/, Stats
     g_where = "deinit_handle";
     rc = svt_av1_enc_deinit_handle(h); g_progress++;
     struct mallinfo2 mi1 = mallinfo2();
+#ifdef SVT_AV1_VERIF
+    fprintf(jf, ",\"sched_events\":%llu", (unsigned long long)svt_verif_sched_event_count());
+#endif
     fprintf(jf, ",\"rc_deinit_handle\":%d,\"threads_after\":%d,\"heap_after\":%zu,\"npk\":%d,\"nrec\":%d,\"eos_pkt\":%d,\"eos_rec\":%d,\"err_pkt\":%d,\"sent\":%d,\"w\":%d,\"h\":%d,\"bd\":%d,\"enc_ms\":%.1f,\"teardown_ms\":%.1f}",
             (int)rc, count_threads(), (size_t)mi1.uordblks, npk, nrec, eos_pkt, eos_rec, err_pkt, sent, w, hgt, bd, t1 - t0, now_ms() - t1);
     g_where = "after-session";
@@ -504,6 +512,9 @@ static void *watchdog(void *arg) {
                     FILE *f = fopen(pth, "w");
                     if (f) { fprintf(f, "{\"hang\":\"deadlock\",\"where\":\"%s\",\"idle_s\":%.1f,\"threads\":%d}\n", (const char *)g_where, (t - tlast) / 1e3, count_threads()); fclose(f); }
                 }
+#ifdef SVT_AV1_VERIF
+                svt_verif_srm_trace_flush(); svt_verif_seg_trace_flush();
+#endif
                 _exit(3);
             }
             cpu_at = cpu; tcpu = t;
